@@ -361,8 +361,13 @@ def load_known() -> list[dict]:
 
 
 def known_match(known: list[dict], prop: str, signature: str) -> Optional[dict]:
+    import fnmatch
+
     for k in known:
-        if k.get("status") == "known" and k.get("property") == prop and k.get("signature") == signature:
+        if k.get("status") != "known" or k.get("property") != prop:
+            continue
+        pat = k.get("signature", "")
+        if pat == signature or ("*" in pat and fnmatch.fnmatchcase(signature, pat)):
             return k
     return None
 
